@@ -4,7 +4,7 @@
    that for one pass, run_ok_b along a whole run. *)
 From Coq Require Import Arith ZArith QArith List Bool Lia.
 Import ListNotations.
-From SCK Require Import Argsort GSInst Eat3 Eat3Proof Eat3Term EatFinal GenNp.
+From SCK Require Import Argsort GSInst Eat3 Eat3Proof Eat3Term EatFinal GenNp EatSnap.
 From SCKGen Require Import EatLoopGen.
 Local Open Scope Q_scope.
 
@@ -62,17 +62,13 @@ Proof.
   unfold gen_eat_set_bistochastic, X_next. apply map_ext_in. intros i Hi. rewrite (nth_map_seq (cur item st) n i None (in_ids_lt i Hi)). reflexivity.
 Qed.
 
-(* the two snapping windows: thresholds as they stand in the generated text (1e-9 and 1 - 1e-9 evaluated in binary64) *)
-Definition thr_rem : Q := 4835703278458517 # 4835703278458516698824704.
-Definition thr_eat : Q := 9007199245733793 # 9007199254740992.
-Definition snapfree_b (st : est) (t : Q) : bool :=
-  forallb (fun j => match nth j (rem st) None with Some r => let r' := qsub r (qmul (tot n item sp st j) t) in Qle_bool r' 0 || negb (Qle_bool r' thr_rem) | None => true end) (seq 0 n) &&
-  forallb (fun i => match nth i (eaten st) None with Some e => let e' := qadd e (qmul (sp i) t) in Qle_bool 1 e' || negb (Qle_bool thr_eat e') | None => true end) (seq 0 n).
+(* the two snapping windows: EatSnap.thr_rem, thr_eat, snapfree_b (thresholds as they stand in the generated text: 1e-9 and 1 - 1e-9 evaluated in binary64) *)
+Local Notation snapfree_b := (EatSnap.snapfree_b n item sp).
 
 Lemma g_rem st t : snapfree_b st t = true ->
   gen_eat_set_item_fraction_remaining_2 n (gen_eat_set_item_fraction_remaining_1 n (rem st) (map (tot n item sp st) (seq 0 n)) t) = rem_next n item sp st t.
 Proof.
-  intro Hs. apply andb_prop in Hs. destruct Hs as [Hs _]. rewrite forallb_forall in Hs.
+  intro Hs. unfold EatSnap.snapfree_b in Hs. apply andb_prop in Hs. destruct Hs as [Hs _]. rewrite forallb_forall in Hs.
   unfold gen_eat_set_item_fraction_remaining_2, gen_eat_set_item_fraction_remaining_1, rem_next. apply map_ext_in. intros j Hj. pose proof (in_ids_lt j Hj) as Hlt.
   rewrite (nth_map_seq _ n j None Hlt). rewrite (nth_map_seq (tot n item sp st) n j 0 Hlt). specialize (Hs j Hj).
   destruct (nth j (rem st) None) as [r|]; [|reflexivity]. cbn [omul osub ogtq]. cbv zeta in Hs.
@@ -86,7 +82,7 @@ Qed.
 Lemma g_eaten st t : snapfree_b st t = true ->
   gen_eat_set_agent_amount_eaten_2 n (gen_eat_set_agent_amount_eaten_1 n sp (eaten st) t) = eaten_next n sp st t.
 Proof.
-  intro Hs. apply andb_prop in Hs. destruct Hs as [_ Hs]. rewrite forallb_forall in Hs.
+  intro Hs. unfold EatSnap.snapfree_b in Hs. apply andb_prop in Hs. destruct Hs as [_ Hs]. rewrite forallb_forall in Hs.
   unfold gen_eat_set_agent_amount_eaten_2, gen_eat_set_agent_amount_eaten_1, eaten_next. apply map_ext_in. intros i Hi. pose proof (in_ids_lt i Hi) as Hlt.
   rewrite (nth_map_seq _ n i None Hlt). specialize (Hs i Hi).
   destruct (nth i (eaten st) None) as [e|]; [|reflexivity]. cbn [omul oadd oltq]. cbv zeta in Hs.
@@ -137,15 +133,12 @@ Proof.
   apply Qnot_le_lt. intro Hle. apply Qle_bool_iff in Hle. congruence.
 Qed.
 
-(* a whole run stays outside the snapping windows (decidable, evaluated by the kernel) *)
-Fixpoint run_ok_b (fuel : nat) (st : est) : bool :=
-  match fuel with O => true | S f =>
-    finished n st || match step_time n item sp st with None => true | Some t =>
-      snapfree_b st t && match estep n item sp st with Some st' => run_ok_b f st' | None => true end end end.
+(* a whole run stays outside the snapping windows: EatSnap.run_ok_b (decidable, evaluated by the kernel) *)
+Local Notation run_ok_b := (EatSnap.run_ok_b n item sp).
 
 Theorem gen_eat_loop_eq : forall fuel st, EatenLt1 st -> run_ok_b fuel st = true -> gen_eat_loop n item sp fuel st = eloop n item sp fuel st.
 Proof.
-  induction fuel as [|f IH]; intros st He Hok; [reflexivity|]. cbn [gen_eat_loop eloop]. rewrite (g_finished st He). unfold run_ok_b in Hok; fold run_ok_b in Hok.
+  induction fuel as [|f IH]; intros st He Hok; [reflexivity|]. cbn [gen_eat_loop eloop]. rewrite (g_finished st He). cbn [EatSnap.run_ok_b] in Hok.
   destruct (finished n st) eqn:Ef; [reflexivity|]. cbn [orb] in Hok.
   assert (Hs : forall t, step_time n item sp st = Some t -> snapfree_b st t = true).
   { intros t Ht. revert Hok. generalize (estep n item sp st). rewrite Ht. intros o Hok. apply andb_prop in Hok. exact (proj1 Hok). }
@@ -170,7 +163,7 @@ Lemma gen_eat_ranked_eq P : gen_eat_ranked argsort P = eat_item P. Proof. reflex
 
 (* the whole method, on the proved stable argsort, is EatFinal.eating_run: the object of C05_run_bistochastic, C05_run_terminates, C05_run_eats_in_order, C05_run_sd_envy_free *)
 Theorem gen_eat_is_model P speeds : (forall s, In s speeds -> 0 < s) ->
-  run_ok_b (length P) (eat_item P) (eat_speed speeds) (2 * length P + 2) (einit (length P)) = true ->
+  EatSnap.run_ok_b (length P) (eat_item P) (eat_speed speeds) (2 * length P + 2) (einit (length P)) = true ->
   gen_eat_bistochastic argsort P (eat_speed speeds) = eating_run P speeds.
 Proof.
   intros Hsp Hok. unfold gen_eat_bistochastic, eating_run. cbv zeta. rewrite gen_eat_ranked_eq, gen_eat_init_eq.
@@ -178,7 +171,7 @@ Proof.
 Qed.
 Corollary gen_eat_bistochastic_sums P speeds Xm : let n := length P in
   (1 <= n)%nat -> (forall row, In row P -> length row = n) -> (forall s, In s speeds -> 0 < s) ->
-  run_ok_b n (eat_item P) (eat_speed speeds) (2 * n + 2) (einit n) = true ->
+  EatSnap.run_ok_b n (eat_item P) (eat_speed speeds) (2 * n + 2) (einit n) = true ->
   gen_eat_bistochastic argsort P (eat_speed speeds) = Some Xm ->
   (forall j, (j < n)%nat -> sumQ (fun i => nth j (nth i Xm []) 0) (seq 0 n) == 1) /\
   (forall i, (i < n)%nat -> sumQ (fun j => nth j (nth i Xm []) 0) (seq 0 n) == 1).
@@ -189,7 +182,7 @@ Theorem gen_ps_is_unit_speeds P : gen_ps_bistochastic argsort P = gen_eat_bistoc
 (* non-vacuity: a 3 x 3 profile with speeds 1, 2, 3 on which the run never enters a snapping window *)
 Example run_ok_example :
   let P := [[Some 0; Some 1; Some 2]; [Some 0; Some 2; Some 1]; [Some 1; Some 0; Some 2]]%nat in
-  run_ok_b 3 (eat_item P) (eat_speed [1; 2 # 1; 3 # 1]) 8 (einit 3) = true /\ gen_eat_bistochastic argsort P (eat_speed [1; 2 # 1; 3 # 1]) <> None.
+  EatSnap.run_ok_b 3 (eat_item P) (eat_speed [1; 2 # 1; 3 # 1]) 8 (einit 3) = true /\ gen_eat_bistochastic argsort P (eat_speed [1; 2 # 1; 3 # 1]) <> None.
 Proof. vm_compute. split; [reflexivity|discriminate]. Qed.
 
 Print Assumptions in_ids_lt.
